@@ -20,11 +20,17 @@ pub struct Violation {
     pub site: String,
     /// human detail (not part of the signature)
     pub detail: String,
+    /// an equivalent, smaller concrete program proposed by the executor (enumerative ops expand to one case)
+    pub reduced: Option<Box<crate::program::Program>>,
 }
 
 impl Violation {
     pub fn new(prop: &'static str, clause: &'static str, site: impl Into<String>, detail: impl Into<String>) -> Violation {
-        Violation { prop, clause, site: site.into(), detail: detail.into() }
+        Violation { prop, clause, site: site.into(), detail: detail.into(), reduced: None }
+    }
+    pub fn with_reduced(mut self, p: Program) -> Violation {
+        self.reduced = Some(Box::new(p));
+        self
     }
     pub fn sig(&self) -> String {
         format!("{}|{}|{}", self.prop, self.clause, self.site)
@@ -97,6 +103,7 @@ pub trait Scenario: Sync {
 
 thread_local! {
     static LAST_PANIC: RefCell<Option<(String, String)>> = RefCell::new(None);
+    static IN_GUARD: std::cell::Cell<u32> = std::cell::Cell::new(0);
 }
 
 pub fn install_panic_hook() {
@@ -109,6 +116,11 @@ pub fn install_panic_hook() {
             "<non-string panic>".to_string()
         };
         let loc = info.location().map(|l| format!("{}:{}", l.file(), l.line())).unwrap_or_default();
+        if IN_GUARD.with(|g| g.get()) == 0 {
+            // a panic in harness code is a harness error, never a violation
+            eprintln!("HARNESS-ERROR harness panic: {} at {}", msg, loc);
+            std::process::exit(2);
+        }
         LAST_PANIC.with(|p| *p.borrow_mut() = Some((msg, loc)));
     }));
 }
@@ -141,7 +153,10 @@ pub fn panic_site(msg: &str, loc: &str) -> String {
 
 /// Run `f` catching panics; Err carries (message, location).
 pub fn guarded<R>(f: impl FnOnce() -> R) -> Result<R, (String, String)> {
-    match std::panic::catch_unwind(std::panic::AssertUnwindSafe(f)) {
+    IN_GUARD.with(|g| g.set(g.get() + 1));
+    let r = std::panic::catch_unwind(std::panic::AssertUnwindSafe(f));
+    IN_GUARD.with(|g| g.set(g.get() - 1));
+    match r {
         Ok(r) => Ok(r),
         Err(_) => Err(take_panic()),
     }
